@@ -525,16 +525,26 @@ type FuncSpec struct {
 	Calls    []*CallRule
 	Assigns  []AssignTarget
 	HasAssigns bool
+	TrustedFrame bool // assigns clause assumed at call sites, not checked against the body
 	Trusted  bool   // contract assumed, body not verified
 	Extern   bool   // function outside /repo; contract assumed
 	NoPanic  bool
 	NoOverflow bool
 	OnErrorUnchanged []Expr
+	Carries  []*CarrySpec
 	Pure     bool
 	Unfold   int // loop unrolling for constant loops (0 = none)
 	Opaque   []string // callees to treat as havoc even if contracted
 	Bounded  string
 	Notes    []string
+}
+
+// CarrySpec: structural completeness (class D): every field of the source struct is carried to dst.
+type CarrySpec struct {
+	Src, Dst Expr
+	Except   map[string]string // field -> reason (checked elsewhere / intentionally dropped)
+	Shared   map[string]string // reference fields that may alias the source, with reason
+	Src0     string
 }
 
 type SpecFunc struct {
@@ -827,11 +837,14 @@ func parseContractFile(path, pkgPath string) (*SpecFile, error) {
 				return nil, fail(err)
 			}
 			curCall.Assume = append(curCall.Assume, c)
-		case "assigns":
+		case "assigns", "trusted_assigns":
 			if cur == nil {
 				return nil, fail(fmt.Errorf("assigns outside func"))
 			}
 			cur.HasAssigns = true
+			if kw == "trusted_assigns" {
+				cur.TrustedFrame = true
+			}
 			for _, part := range splitTop(rest, ',') {
 				part = strings.TrimSpace(part)
 				switch {
@@ -888,6 +901,50 @@ func parseContractFile(path, pkgPath string) (*SpecFile, error) {
 				}
 				cur.OnErrorUnchanged = append(cur.OnErrorUnchanged, e)
 			}
+		case "carries":
+			// carries SRC -> DST [except f(reason), g(reason)] [shared h(reason)]
+			if cur == nil {
+				return nil, fail(fmt.Errorf("carries outside func"))
+			}
+			cs := &CarrySpec{Except: map[string]string{}, Shared: map[string]string{}, Src0: rest}
+			body := rest
+			exc, shr := "", ""
+			if i := strings.Index(body, " shared "); i >= 0 {
+				shr = body[i+8:]
+				body = body[:i]
+			}
+			if i := strings.Index(body, " except "); i >= 0 {
+				exc = body[i+8:]
+				body = body[:i]
+			}
+			parts := strings.Split(body, "->")
+			if len(parts) != 2 {
+				return nil, fail(fmt.Errorf("carries: want `carries src -> dst`"))
+			}
+			var err error
+			if cs.Src, err = ParseSpecExpr(strings.TrimSpace(parts[0])); err != nil {
+				return nil, fail(err)
+			}
+			if cs.Dst, err = ParseSpecExpr(strings.TrimSpace(parts[1])); err != nil {
+				return nil, fail(err)
+			}
+			for _, it := range splitTop(exc, ',') {
+				it = strings.TrimSpace(it)
+				name, reason := it, ""
+				if j := strings.Index(it, "("); j > 0 {
+					name, reason = it[:j], strings.TrimSuffix(it[j+1:], ")")
+				}
+				cs.Except[strings.TrimSpace(name)] = reason
+			}
+			for _, it := range splitTop(shr, ',') {
+				it = strings.TrimSpace(it)
+				name, reason := it, ""
+				if j := strings.Index(it, "("); j > 0 {
+					name, reason = it[:j], strings.TrimSuffix(it[j+1:], ")")
+				}
+				cs.Shared[strings.TrimSpace(name)] = reason
+			}
+			cur.Carries = append(cur.Carries, cs)
 		case "unroll":
 			if cur != nil {
 				cur.Unfold, _ = strconv.Atoi(strings.TrimSpace(rest))
